@@ -105,7 +105,12 @@ func verifyFunc(P *Program, C *Contracts, fc *FuncContract) *Unit {
 			u.problems = append(u.problems, fmt.Sprintf("call-site block 'at %s %d' matched no call in %s", cs.Callee, cs.Ordinal, fc.Key))
 		}
 	}
+	seenProblem := map[string]bool{}
 	for _, p := range u.problems {
+		if seenProblem[p] {
+			continue
+		}
+		seenProblem[p] = true
 		u.oblige(u.Name+"#contract-binding:"+shortHash(p), "contract-binding", "contract refers to the code as it is: "+p, "false", nil)
 	}
 	return u
@@ -199,9 +204,17 @@ func frameFormula(c, fin, ini string, a *allowedSet) string {
 		for _, e := range a.elems {
 			exe = append(exe, not(and(eq("q!r", e[0]), eq("q!j", e[1]))))
 		}
-		return fmt.Sprintf("(forall ((q!r Int) (q!j Int)) (! (=> %s (= (select (select %s q!r) q!j) (select (select %s q!r) q!j))) :pattern ((select (select %s q!r) q!j))))", and(guard, and(exe...)), fin, ini, fin)
+		body := fmt.Sprintf("(=> %s (= (select (select %s q!r) q!j) (select (select %s q!r) q!j)))", and(guard, and(exe...)), fin, ini)
+		if !strings.ContainsAny(fin, "( ") {
+			body = fmt.Sprintf("(! %s :pattern ((select (select %s q!r) q!j)))", body, fin)
+		}
+		return "(forall ((q!r Int) (q!j Int)) " + body + ")"
 	}
-	return fmt.Sprintf("(forall ((q!r Int)) (! (=> %s (= (select %s q!r) (select %s q!r))) :pattern ((select %s q!r))))", guard, fin, ini, fin)
+	body := fmt.Sprintf("(=> %s (= (select %s q!r) (select %s q!r)))", guard, fin, ini)
+	if !strings.ContainsAny(fin, "( ") {
+		body = fmt.Sprintf("(! %s :pattern ((select %s q!r)))", body, fin)
+	}
+	return "(forall ((q!r Int)) " + body + ")"
 }
 
 // frameObligation: every heap component is unchanged outside the declared modifies set, for
